@@ -3,4 +3,4 @@ From FB Require Import Base Syntax World SlotMap Fub Unbounded Ordered Adapters 
 Require Import ExtrOcamlBasic.
 Extraction Language OCaml.
 
-Extraction "../ocaml/gen/model.ml" step_op run init_state chk_C02 chk_C04 chk_C05 chk_C06 chk_C07 chk_C08 chk_C09 chk_C10 chk_C11 chk_C13a chk_C14b chk_C15 chk_C16.
+Extraction "../ocaml/gen/model.ml" step_op run init_state chk_C01 chk_C02 chk_C03 chk_C04 chk_C05 chk_C06 chk_C07 chk_C08 chk_C09 chk_C10 chk_C11 chk_C12 chk_C13 chk_C14 known_C14_fin chk_C15 chk_C16 chk_C17 chk_C18 chk_all.
